@@ -339,14 +339,23 @@ def _check_visit(ctx, mod, nv, viol):
     if not ok:
         viol("R-C14.3", "NodeVisitor", "visit-dispatch", why, fn)
     # cache: any subscript store / .get must be on an attribute of self keyed by the class name
+    def on_instance(e):
+        """e is an attribute of the visitor instance, or a local that only ever names one (bound to `self.X`, or together with it: `c = self.X = {}`)"""
+        if isinstance(e, ast.Attribute) and isinstance(e.value, ast.Name) and e.value.id == selfname:
+            return True
+        if isinstance(e, ast.Name):
+            binds = [a for a in ast.walk(fn) if isinstance(a, ast.Assign) and any(isinstance(t, ast.Name) and t.id == e.id for t in a.targets)]
+            stores = sum(1 for x in ast.walk(fn) if isinstance(x, ast.Name) and x.id == e.id and isinstance(x.ctx, ast.Store))
+            return bool(binds) and stores == len(binds) and all(on_instance(a.value) or any(on_instance(t) for t in a.targets if not isinstance(t, ast.Name)) for a in binds)
+        return False
     for n in ast.walk(fn):
         if isinstance(n, ast.Subscript) and isinstance(n.ctx, ast.Store):
-            okc = isinstance(n.value, ast.Attribute) and isinstance(n.value.value, ast.Name) and n.value.value.id == selfname and _classname_expr(n.slice, nodevar, local_defs)
+            okc = on_instance(n.value) and _classname_expr(n.slice, nodevar, local_defs)
             ctx.oblige("R-C14.3", "NodeVisitor.visit cache store", okc)
             if not okc:
                 viol("R-C14.3", "NodeVisitor", "visit-cache", "dispatch cache must live on the instance and be keyed by the node's class name", n)
         if isinstance(n, ast.Call) and isinstance(n.func, ast.Attribute) and n.func.attr == "get" and n.args:
-            okc = isinstance(n.func.value, ast.Attribute) and isinstance(n.func.value.value, ast.Name) and n.func.value.value.id == selfname and _classname_expr(n.args[0], nodevar, local_defs)
+            okc = on_instance(n.func.value) and _classname_expr(n.args[0], nodevar, local_defs)
             ctx.oblige("R-C14.3", "NodeVisitor.visit cache lookup", okc)
             if not okc:
                 viol("R-C14.3", "NodeVisitor", "visit-cache-get", "dispatch cache must be read from the instance, keyed by the node's class name", n)
